@@ -2,6 +2,7 @@ package types
 
 import (
 	"fmt"
+	"sort"
 )
 
 type FunKind int
@@ -15,10 +16,46 @@ const (
 func (f *FunTy) OverLoaded() (key string, fk FunKind) {
 	if slotFree(f.Ty()) {
 		// 单态函数直接根据去除返回值的签名来查找
-		return fmt.Sprintf("λ %s %s", f.Name, Tuple(f.Param)), MonoFun
+		// 对象类型按字段名结构相等(与字段顺序无关), key 中的字段需要排序
+		return fmt.Sprintf("λ %s %s", f.Name, canonical(Tuple(f.Param))), MonoFun
 	} else {
 		// for 支持 universal quantification
 		// 多态函数根据名称+参数个数来查找
 		return fmt.Sprintf("∀.λ %s %d", f.Name, len(f.Param)), PolyFun
+	}
+}
+
+// canonical 返回字段按名称排序后的类型, 结构相等的类型得到相同的字符串表示
+func canonical(ty *Type) *Type {
+	switch ty.Kind {
+	case KList:
+		return List(canonical(ty.List().El))
+	case KMap:
+		return Map(canonical(ty.Map().Key), canonical(ty.Map().Val))
+	case kTuple:
+		val := ty.Tuple().Val
+		xs := make([]*Type, len(val))
+		for i, el := range val {
+			xs[i] = canonical(el)
+		}
+		return Tuple(xs)
+	case KObj:
+		fs := make([]Field, len(ty.Obj().Fields))
+		for i, f := range ty.Obj().Fields {
+			fs[i] = Field{f.Name, canonical(f.Val)}
+		}
+		sort.SliceStable(fs, func(i, j int) bool { return fs[i].Name < fs[j].Name })
+		return Obj(fs)
+	case KFun:
+		f := ty.Fun()
+		ps := make([]*Type, len(f.Param))
+		for i, p := range f.Param {
+			ps[i] = canonical(p)
+		}
+		return Fun(f.Name, ps, canonical(f.Return))
+	case KMaybe:
+		return Maybe(canonical(ty.Maybe().Elem))
+	default:
+		return ty
 	}
 }
